@@ -90,8 +90,11 @@ def gen_cases(rng, tier, scale):
         ln = rng.randint(2, 5)
         links = [(rng.choice(['if', 'unless']), rng.random() < 0.6, rng.choice(IZV)) for _ in range(ln)]
         s = ''
+        bodies = []
         for j, (kd, iz, v) in enumerate(links):
-            s += ('{{#%s c%d%s}}' if j == 0 else '{{else %s c%d%s}}') % (kd, j, ' includeZero=true' if iz else '') + f'<{j}>'
+            # some link bodies are empty (a chain link with an empty body is still a link)
+            bodies.append('' if rng.random() < 0.3 else f'<{j}>')
+            s += ('{{#%s c%d%s}}' if j == 0 else '{{else %s c%d%s}}') % (kd, j, ' includeZero=true' if iz else '') + bodies[-1]
         has_else = rng.random() < 0.6
         s += ('{{else}}<E>' if has_else else '') + '{{/%s}}' % links[0][0]
         def tr(v, iz):
@@ -102,7 +105,7 @@ def gen_cases(rng, tier, scale):
         exp = '<E>' if has_else else ''
         for j, (kd, iz, v) in enumerate(links):
             if tr(v, iz) != (kd == 'unless'):
-                exp = f'<{j}>'
+                exp = bodies[j]
                 break
         cases.append(rcase(f'zc{i}', s, {f'c{j}': l[2] for j, l in enumerate(links)}, entry=4, kind='izchain', exp=exp, tags=['includeZero-chain']))
     cases.append(rcase('sub0', '{{#if a}}A{{else}}B{{/if}}', {'a': SUBNORMAL}, entry=4, kind='subnormal', tags=['subnormal']))
